@@ -55,14 +55,19 @@ Record variant := mkvariant {
   tzeros_via_base : bool; (* TransformedMessage.zeros_like = with_base(base.zeros_like()) *)
   beta_project_ok : bool; (* inv_beta_suffstats solves its Newton step (with the installed numpy 2
                              np.linalg.solve rejects the (n,2) right-hand side: every BetaMessage.project raises) *)
-  fixed_truediv_noop : bool  (* FixedMessage.__truediv__ = _no_op (the class only defines the py2 name __div__) *)
+  fixed_truediv_noop : bool; (* FixedMessage.__truediv__ = _no_op (the class only defines the py2 name __div__) *)
+  product_keeps_lognorm : bool; (* sum_natural_parameters passes log_norm = self.log_norm + sum(other.log_norm) on, and
+                                   TransformedMessage.log_norm is the log_norm of its base (proposed, not applied) *)
+  tproject_transforms : bool (* TransformedMessage.project fits the base to self._transform(samples) and puts the
+                                lower_limit/upper_limit keyword arguments on the result (proposed, not applied) *)
 }.
-Definition pinned : variant := mkvariant false false false false.     (* the pinned tree *)
-Definition applied3 : variant := mkvariant true true true false.      (* limits, zeros_like, beta fixes applied *)
-Definition repaired : variant := mkvariant true true true true.       (* all proposed fixes applied *)
+Definition pinned : variant := mkvariant false false false false false false.     (* the pinned tree *)
+Definition applied3 : variant := mkvariant true true true false false false.      (* limits, zeros_like, beta fixes applied *)
+Definition applied4 : variant := mkvariant true true true true false false.       (* ... and FixedMessage.__truediv__ *)
+Definition repaired : variant := mkvariant true true true true true true.         (* all proposed fixes applied *)
 (* the code the correspondence check compares with; theorems never mention `cur`, so this is
    the only line to change when a proposed fix is applied to /repo *)
-Definition cur : variant := repaired.
+Definition cur : variant := applied4.
 
 (* id -1 stands for "a fresh id drawn from AbstractMessage.ids" *)
 Definition fresh_id : Z := (-1)%Z.
@@ -112,10 +117,14 @@ Section Generic.
 
   (* MessageInterface.sum_natural_parameters: the result is rebuilt through
      from_natural_parameters with id and limits of self; log_norm is NOT passed on *)
-  Definition b_sum (a : msg) (others : list msg) : msg :=
+  Definition b_sum (V : variant) (a : msg) (others : list msg) : msg :=
     if is_fixed a then a else
     let etas := fold_left (fun acc b => map2 vadd acc (nat_of b)) others (nat_of a) in
-    mkmsg (fam a) (scalar a) (map (of_nat (fam a)) etas) (c0 O) (mid a) (lo a) (hi a).
+    (* proposed: log_norm = self.log_norm + sum(d.log_norm for d in others)   [Python sum starts at 0] *)
+    let ln := if product_keeps_lognorm V
+              then oadd O (lognorm a) (fold_left (fun acc b => oadd O acc (lognorm b)) others (c0 O))
+              else c0 O in
+    mkmsg (fam a) (scalar a) (map (of_nat (fam a)) etas) ln (mid a) (lo a) (hi a).
 
   (* MessageInterface.sub_natural_parameters *)
   Definition b_div (a b : msg) : msg :=
@@ -203,14 +212,16 @@ Section Generic.
     | EVar n => nth_error env n
     | EMul x y =>
         match eval V env x, eval V env y with
-        | Some vx, Some vy => Some (lift1 V (fun a => b_sum a [base_of vy]) vx)
+        | Some vx, Some vy => Some (lift1 V (fun a => b_sum V a [base_of vy]) vx)
         | _, _ => None
         end
     | EDiv x y =>
         match eval V env x, eval V env y with
-        | Some (MB a), Some (MT _ _ _ _ _) =>
-            (* sub_natural_parameters reads other.log_norm, which a TransformedMessage lacks *)
-            if is_fixed a then Some (MB a) else None
+        | Some (MB a), Some ((MT _ _ _ _ _) as vy) =>
+            (* sub_natural_parameters reads other.log_norm, which a TransformedMessage lacks
+               (proposed: TransformedMessage.log_norm = log_norm of its base) *)
+            if is_fixed a then Some (MB a)
+            else if product_keeps_lognorm V then Some (MB (b_div a (base_of vy))) else None
         | Some vx, Some vy => Some (lift1 V (fun a => b_div a (base_of vy)) vx)
         | _, _ => None
         end
@@ -219,11 +230,11 @@ Section Generic.
     | ESDiv x c => option_map (lift1 V (fun a => b_sdiv V a c)) (eval V env x)
     | ESum3 x y z =>
         match eval V env x, eval V env y, eval V env z with
-        | Some (MB a), Some vy, Some vz => Some (MB (b_sum a [base_of vy; base_of vz]))
+        | Some (MB a), Some vy, Some vz => Some (MB (b_sum V a [base_of vy; base_of vz]))
         | Some (MT s i l h a), Some vy, Some vz =>
             (* inherited MessageInterface.sum_natural_parameters: the kwargs of the
                TRANSFORMED message (its id, its limits) go to the new base message *)
-            let r := b_sum a [base_of vy; base_of vz] in
+            let r := b_sum V a [base_of vy; base_of vz] in
             let r' := mkmsg (fam r) (scalar r) (elems r) (lognorm r)
                             (match i with Some z => z | None => fresh_id end) l h in
             Some (rewrap V s i l h (if is_fixed a then a else r'))
@@ -440,6 +451,14 @@ Definition proj_msg (tb : tabs) (f : family) (is_scalar : bool) (cols : list (li
   let r := map (fun c => proj_col (fops is_scalar tb) f (fst c) (snd c)) cols in
   (map fst r, map snd r).
 
+(* TransformedMessage.project: the samples handed to base_message.project (raw today; self._transform(samples)
+   with the proposed repair) *)
+Definition tproj_cols (O : ops float) (V : variant) (stack : list (transform float))
+           (cols : list (list float * list float)) : list (list float * list float) :=
+  if tproject_transforms V
+  then map (fun c => (map (fun x => fst (transform_det O stack x)) (fst c), snd c)) cols
+  else cols.
+
 (* `assert np.isfinite(suff_stats).all()` of AbstractMessage.project *)
 Definition proj_finite (tb : tabs) (f : family) (is_scalar : bool) (cols : list (list float * list float)) : bool :=
   forallb (fun c => forallb ffinite (suff_stats (fops is_scalar tb) f (fst c) (snd c))) cols.
@@ -457,7 +476,8 @@ Inductive case :=
 | CProjExc (f : family)
 (* TransformedMessage.project raised: the base is projected on the RAW samples, which raises exactly when a
    sufficient statistic of the raw samples is not finite (e.g. log of a sample outside the base support) *)
-| CTProjExc (tb : tabs) (f : family) (is_scalar : bool) (cols : list (list float * list float))
+| CTProjExc (tb : tabs) (f : family) (is_scalar : bool) (stack : list (transform float))
+            (cols : list (list float * list float))
 (* m.logpdf(x) of a base message: rows of x (one value per array element) and the observed log-densities *)
 | CLogpdf (tb : tabs) (f : family) (is_scalar x_scalar : bool) (elems_ : list (list float))
           (xs obs : list (list float))
@@ -471,7 +491,7 @@ Inductive case :=
 (* TransformedMessage.project: the base is projected on the samples AS GIVEN, the result is
    re-wrapped with the same transforms and id; kwargs and limits are dropped *)
 | CTProj (tb : tabs) (f : family) (is_scalar : bool) (cols : list (list float * list float))
-         (stack : list (transform float)) (tid : option Z)
+         (stack : list (transform float)) (tid : option Z) (kw_l kw_h : float)
          (obs_stack : list (transform float)) (obs_tid : option Z) (obs_tl obs_th : float)
          (obs_elems : list (list float)) (obs_lognorm : list float) (obs_id : Z) (obs_l obs_h : float).
 
@@ -509,7 +529,7 @@ Definition check_case (c : case) : bool :=
   | CHist f e0 steps obs =>
       hist_ok (fops false no_tabs) (mkmsg f false e0 0%float 0%Z neg_infinity infinity) steps obs
   | CProjExc f => family_eqb f FBeta && negb (beta_project_ok cur)
-  | CTProjExc tb f sc cols => negb (proj_finite tb f sc cols)
+  | CTProjExc tb f sc st cols => negb (proj_finite tb f sc (tproj_cols (fops sc tb) cur st cols))
   | CLogpdf tb f sc xsc es xs obs =>
       let O := fops sc tb in
       list_eqb flist_eqb (map (fun row => map2 (fun p x => natural_logpdf O f p x xsc) es row) xs) obs
@@ -526,11 +546,13 @@ Definition check_case (c : case) : bool :=
       (negb (family_eqb f FBeta) || beta_project_ok cur) &&
       list_eqb flist_eqb (fst r) oe && flist_eqb (snd r) oln
       && Z.eqb i oi && fbits_eqb l ol && fbits_eqb h oh
-  | CTProj tb f sc cols st ti ost oti otl oth oe oln oi ol oh =>
+  | CTProj tb f sc cols0 st ti kl kh ost oti otl oth oe oln oi ol oh =>
+      let cols := tproj_cols (fops sc tb) cur st cols0 in
       let r := proj_msg tb f sc cols in
       proj_finite tb f sc cols &&
       list_eqb flist_eqb (fst r) oe && flist_eqb (snd r) oln
       && list_eqb transform_eqb st ost && opt_eqb Z.eqb ti oti
-      && fbits_eqb otl neg_infinity && fbits_eqb oth infinity
+      && fbits_eqb otl (if tproject_transforms cur then kl else neg_infinity)
+      && fbits_eqb oth (if tproject_transforms cur then kh else infinity)
       && Z.eqb oi fresh_id && fbits_eqb ol neg_infinity && fbits_eqb oh infinity
   end.
